@@ -137,9 +137,21 @@ def gen_cfg(rng, world, fault_rate=0.35):
                          "cut": rng.randrange(0, 64), "silent": rng.random() < 0.15}
     return {"cache_remote": rng.random() < 0.65, "urljoin_cache": rng.choice(caches),
             "remote_cache": rng.choice(caches), "handler_schemes": schemes,
-            "base_mode": rng.choice(["from_schema", "explicit"]),
+            "base_mode": rng.choice(["from_schema", "explicit", "from_schema", "explicit", "above"]),
             "store_kind": rng.choice(["dict", "dict", "pairs", "uridict"]),
             "faults": faults, "use_store": True}
+
+
+def _splittable(url):
+    """("http://host/", "dir/file.json") for an http URL with at least two path segments, else None."""
+    from urllib.parse import urlsplit
+    u = urlsplit(url)
+    if u.scheme not in ("http", "https") or u.query or u.fragment:
+        return None
+    segs = [x for x in u.path.split("/") if x]
+    if len(segs) < 2:
+        return None
+    return "%s://%s/" % (u.scheme, u.netloc), "/".join(segs)
 
 
 class Actor(object):
@@ -152,6 +164,11 @@ class Actor(object):
         self.explicit_base = None
         draft = world["draft"]
         store_urls = list(world.get("store_docs", ())) if cfg.get("use_store", True) else []
+        default_resolver = bool(cfg.get("default_resolver"))
+        if default_resolver:
+            # Validator(schema) with NO resolver argument: the library builds RefResolver.from_schema(schema)
+            # itself - no store documents, no handlers (documents come through the urlopen / requests seam)
+            store_urls = []
         forbidden = store_urls + sorted(METASCHEMA_IDS.values())
         self.transport = SimTransport(world["docs"], plan=cfg.get("faults"), forbidden=forbidden)
         if calls:
@@ -171,6 +188,20 @@ class Actor(object):
             keys = world.get("store_keys") or {}
             store = dict((keys.get(u, u), shared_from.resolver.store[u]) for u in store_urls)
         self.root = root
+        above = None
+        idkw = idkw_of(draft)
+        if (shared_from is None and cfg.get("base_mode") == "above" and not default_resolver and isinstance(root, dict)
+                and isinstance(root.get(idkw), str) and _splittable(root[idkw])):
+            # the resolver's base is a directory ABOVE the schema and the schema's own id is RELATIVE to it
+            # (RefResolver(base_uri="http://host/", referrer={"$id": "dir/main.json", ...})): entering the
+            # root pushes a scope that differs from the base, and joining that id twice gives a wrong URL
+            full = root[idkw]
+            above, root[idkw] = _splittable(full)
+            store.setdefault(full, root)    # the caller also lists the schema under its full URL
+            self.above_full = full
+        elif shared_from is not None and getattr(shared_from, "above_full", None):
+            self.above_full = shared_from.above_full
+            store.setdefault(self.above_full, root)
         sk = cfg.get("store_kind", "dict")
         if sk == "pairs":
             store = list(store.items())                  # store= accepts anything dict.update() accepts
@@ -204,7 +235,9 @@ class Actor(object):
                       urljoin_cache=mk(cfg.get("urljoin_cache", "lru"), urljoin),
                       remote_cache=mk(cfg.get("remote_cache", "lru"), rfu))
         idkw = idkw_of(draft)
-        if shared_from is not None and shared_from.explicit_base is not None:
+        if default_resolver:
+            resolver = None
+        elif shared_from is not None and shared_from.explicit_base is not None:
             self.explicit_base = shared_from.explicit_base
             resolver = RefResolver(self.explicit_base, root, **kwargs)
         elif (shared_from is None and cfg.get("base_mode") == "explicit"
@@ -212,11 +245,18 @@ class Actor(object):
             base = root.pop(idkw)
             self.explicit_base = base
             resolver = RefResolver(base, root, **kwargs)
+        elif above is not None:
+            self.explicit_base = above
+            resolver = RefResolver(above, root, **kwargs)
         else:
             resolver = RefResolver.from_schema(root, id_of=self.cls.ID_OF, **kwargs)
+        if default_resolver:
+            self.validator = self.cls(root, format_checker=self.fc)
+            resolver = self.validator.resolver
+        else:
+            self.validator = self.cls(root, resolver=resolver, format_checker=self.fc)
         holder.append(resolver)
         self.resolver = resolver
-        self.validator = self.cls(root, resolver=resolver, format_checker=self.fc)
         # further validators that share this resolver (used sequentially; C15: fetch counts are per resolver)
         self.validators = [self.validator] + [
             self.cls({"$ref": r}, resolver=resolver, format_checker=self.fc) for r in cfg.get("extra_validators", ())]
@@ -404,10 +444,13 @@ class _NoCtx(object):
 class IterTask(object):
     """A live error iterator of one actor, steppable one next() at a time."""
 
-    def __init__(self, actor, instance, validator=None, low_stack=False):
+    def __init__(self, actor, instance, validator=None, low_stack=False, schema=None):
         self.actor = actor
         self.low_stack = low_stack
-        self.it = (validator or actor.validator).iter_errors(instance)
+        if schema is None:
+            self.it = (validator or actor.validator).iter_errors(instance)
+        else:
+            self.it = (validator or actor.validator).iter_errors(instance, schema)
         self.errs = []
         self.done = False
         self.exc = None
@@ -498,7 +541,7 @@ def do_op(actor, op, instances):
               with StackLimit(deep):
                   out = {"k": "bool", "v": bool(v.is_valid(inst))}
           elif kind == "exhaust":
-              t = IterTask(actor, inst, v, low_stack=deep)
+              t = IterTask(actor, inst, v, low_stack=deep, schema=sub)
               t.take(10 ** 6)
               out = t.outcome()
           elif kind == "validate":
@@ -506,7 +549,11 @@ def do_op(actor, op, instances):
                   v.validate(inst)
               out = {"k": "none"}
           elif kind in ("take_close", "take_drop", "take_cycle"):
-              t = IterTask(actor, inst, v, low_stack=deep)
+              t = IterTask(actor, inst, v, low_stack=deep, schema=sub)
+              if sub is not None:
+                  actor.probe("explicit_subschema_argument")
+              if op["k"] == 0:
+                  actor.probe("iterator_never_advanced")
               if op.get("elsewhere") == "start":
                   in_other_thread(lambda: t.take(1), actor)       # first step on another thread, the rest here
                   t.take(max(0, op["k"] - 1))
@@ -572,6 +619,15 @@ def do_op(actor, op, instances):
           elif kind == "resolve_from_url":
               resolved = r.resolve_from_url(op["ref"])
               out = {"k": "value", "v": typed(resolved)}
+          elif kind == "resolve_remote":
+              # the public fetch primitive, called directly (always retrieves; raw exceptions by contract)
+              resolved = r.resolve_remote(op["ref"])
+              out = {"k": "value", "v": typed(resolved)}
+          elif kind == "resolve_fragment":
+              doc = copy.deepcopy(actor.world["docs"].get(op["doc"], actor.world["root"]))
+              before = fast(doc)
+              resolved = r.resolve_fragment(doc, op["frag"])
+              out = {"k": "value", "v": typed(resolved), "doc_mutated": fast(doc) != before}
           elif kind == "resolving":
               got = None
               with r.resolving(op["ref"]) as resolved:
